@@ -24,6 +24,10 @@
                 next to C14Var.v on OCaml floats: children / chosen index / flags compared exactly (hex floats).  Spec monitors:
                 children of parents inside the box are inside the box, untouched coordinates unchanged; the tournament winner is the
                 first drawn individual of least rank; elitist selection marks mu individuals, none worse than an unmarked one.
+  stream U    : updatePopulation of IndicatorBasedRealCodedNSGAII<H|E|C>, MOCMA, SMSEMOA, SteadyStateMOCMA driven with chosen integer
+                fitness vectors (protected members opened in the harness only) next to C14Loop.gen_update / ss_update with the coded
+                indicator models: surviving individuals and solution() compared.  Monitor: mu survivors, all of them parents or
+                offspring, none worse-ranked than a discarded one, solution() = (point, unpenalized value) of the survivors.
   stream F8   : HypervolumeIndicator WITHOUT reference point (separate stream, stable key
                 contribution:no-reference-k-too-large)."""
 import os, sys, re, math, itertools
@@ -591,6 +595,84 @@ def run_V(ck, lines, model, exe, tmpd):
     return len(mon), len(dis), degen
 
 # ------------------------------------------------------------------------------------------------
+# stream U: updatePopulation next to gen_update / ss_update
+def gen_U(rng, big, count):
+    lines = []
+    while len(lines) < count:
+        alg = rng.choice(["N2", "N2", "N2", "MO", "S", "SM"])
+        ind = rng.choice(["H", "E", "C"]) if alg == "N2" else "H"
+        S, ref = gen_pop(rng, big)
+        if ind == "H": S = [p[:2] for p in S]; ref = ref[:2]
+        d = len(ref); n = len(S)
+        if alg in ("S", "SM"):
+            if n < 2: continue
+            mu, lam = n - 1, 1
+        elif alg == "MO":
+            if n < 2: continue
+            mu = n // 2; lam = mu; S = S[:2 * mu]
+        else:
+            mu = rng.randint(1, n); lam = n - mu
+        lines.append("U %s %s %d %d %d %d %s %s" % (alg, ind, d, mu, lam, 1 if ind == "H" else 0, " ".join(map(str, ref)),
+                                                   " ".join(str(x) for p in S for x in p)))
+    return lines
+
+def monitor_U(line, out):
+    t = line.split(); alg, ind, d, mu, lam = t[1], t[2], int(t[3]), int(t[4]), int(t[5])
+    v = list(map(int, t[7 + d:])); S = [v[i * d:(i + 1) * d] for i in range(mu + lam)]
+    if not out.startswith("pop="): return ["%s::updatePopulation raised: %s" % (alg, out[:80])]
+    o = kv(out); pop = ints(o["pop"])
+    if len(pop) != mu: return ["%s::updatePopulation left %d individuals, mu = %d" % (alg, len(pop), mu)]
+    if len(set(pop)) != mu or any(k < 0 or k >= mu + lam for k in pop): return ["%s::updatePopulation: population %s is not a set of parents/offspring" % (alg, pop)]
+    rk = py_ranks(S)
+    for a in pop:
+        for b in range(mu + lam):
+            if b not in pop and rk[a] > rk[b]: return ["%s::updatePopulation keeps individual %d (rank %d) and discards individual %d (rank %d)" % (alg, a, rk[a], b, rk[b])]
+    best = [e.split(":") for e in o["best"].split(";")] if o["best"] else []
+    if sorted(int(k) for k, _ in best) != pop: return ["%s: solution() holds the points %s, the population is %s" % (alg, [int(k) for k, _ in best], pop)]
+    for k, val in best:
+        k = int(k); want = [x + (100 if k >= mu else 0) for x in S[k]]
+        if [float(x) for x in val.split(",")] != [float(x) for x in want]:
+            return ["%s: solution() reports the value %s for individual %d, its unpenalized fitness is %s (penalized %s)" % (alg, val, k, want, S[k])]
+    return []
+
+def cmp_U(line, o, m):
+    a, b = kv(o), kv(m); t = line.split()
+    if t[1] == "SM":          # SteadyStateMOCMA re-orders its parents (sortRankOneToFront): duplicates may swap roles; compare fitness vectors
+        d = int(t[3]); v = list(map(int, t[7 + d:])); S = [v[i * d:(i + 1) * d] for i in range(int(t[4]) + int(t[5]))]
+        fit = lambda x: sorted((S[k], k >= int(t[4])) for k in ints(x["pop"]))
+        return fit(a) == fit(b)
+    keys = ["pop", "best"] + (["order"] if t[1] == "S" else [])
+    return all(a.get(k) == b.get(k) for k in keys)
+
+def run_U(ck, lines, model, exe, tmpd):
+    io = run_cases(exe, [[l] for l in lines], os.path.join(tmpd, "U_impl.txt"))
+    outs = [o[0] if rc == 0 and o else "CRASH rc=%s" % rc for (o, rc, e) in io]
+    rc, mo, err = run_lines(model, lines, os.path.join(tmpd, "U_model.txt"))
+    if rc != 0 or len(mo) != len(lines): raise RuntimeError("model driver failed: " + err[-1000:])
+    mon = []; dis = []
+    for k, (l, o, m) in enumerate(zip(lines, outs, mo)):
+        msgs = monitor_U(l, o)
+        if msgs: mon.append((k, msgs))
+        elif not cmp_U(l, o, m): dis.append(k)
+    seen = set()
+    for k, msgs in mon:
+        key = "loop:%s:%s" % (lines[k].split()[1], re.sub(r"\d+", "N", msgs[0])[:60])
+        if key in seen or len(seen) >= 3: continue
+        seen.add(key)
+        cf = ck.write_replay("U_case_%d.txt" % k, lines[k] + "\n")
+        ck.violation(key, {"case_file": cf, "case": lines[k], "implementation_output": outs[k], "model_output": mo[k], "monitor": msgs,
+                           "replay_cmd": "python3 tools/c14.py --replay " + cf}, "spec monitor fails on the implementation: " + msgs[0])
+    if dis and not mon:
+        k = dis[0]
+        cf = ck.write_replay("U_dis_%d.txt" % k, lines[k] + "\n")
+        ck.violation("correspondence-loop", {"case_file": cf, "case": lines[k], "implementation_output": outs[k], "model_output": mo[k],
+                                             "broken": "correspondence C14Loop.gen_update / ss_update vs updatePopulation",
+                                             "replay_cmd": "python3 tools/c14.py --replay " + cf},
+                     "correspondence loop model vs updatePopulation no longer checks (%d cases differ, e.g. `%s`: implementation `%s`, model `%s`); the spec monitor passes on every explored input"
+                     % (len(dis), lines[k], outs[k], mo[k]), no_input=True)
+    return len(mon), len(dis)
+
+# ------------------------------------------------------------------------------------------------
 # stream P
 def gen_P(rng, count):
     out = []
@@ -742,7 +824,9 @@ def main():
     ck = Check(PID)
     big = ck.tier == "thorough"
     ck.trusted = DEFAULT_TRUSTED + [
-        "modelled not verified: the C++ hypervolume-contribution routines (compared against an exact integer brute force and against Coq contribs_spec), NSGA3Indicator / CrowdingDistance choices (only validity of the index set is checked), std::sort / std::partition",
+        "modelled not verified: the 3-D / MD hypervolume-contribution routines (Section variable of the model; compared against an exact integer brute force and against Coq contribs_spec); the plane solver inside NSGA3Indicator::computeNormalizer (its answer is re-derived in the harness by the same statements + the same library solver and handed to the model); std::sort is taken to leave ties in a stable order (libstdc++ insertion sort, <= 16 elements: generated fronts respect the bound), std::partition / std::min_element / heap routines as specified",
+        "std::pow / std::abs / sqrt of the C library = OCaml's ( ** ) / abs_float / sqrt (same libm) in the float instances of the models; the theorems hold for arbitrary functions in their place",
+        "one canonical uniform draw per random::coinToss / random::uni call (libstdc++ bernoulli_distribution / uniform_real_distribution over generate_canonical); random::discrete is modelled by its results",
         "the rank definition / hv_spec and their lemmas come from C13Model.v / C13Proofs.v",
         "benchmark functions ZDT/DTLZ and BoxConstraintHandler::closestFeasible are re-evaluated through /repo's own objects in the harness; ZDT1, ZDT2, DTLZ2 additionally by an independent Python implementation (1e-9)"]
     ck.assumptions = [
@@ -750,6 +834,8 @@ def main():
         "hypervolume monotonicity is claimed only when the indicator is configured with the same fixed reference point the hypervolume is measured against (indicator().setReference(r)); the default configuration (implicit moving reference, extreme points never removed) is outside the claim: decreases there are counted in notes.hv_decrease_noref, not reported",
         "objective vectors are component-wise below the reference point (precondition of the contribution routines)",
         "objective functions are deterministic; PenalizingEvaluator re-evaluations average identical values",
+        "NSGA3Indicator validity is proved under n3_finite (all association distances compare below DBL_MAX: no NaN / overflow) and at least one reference direction",
+        "CrowdingDistance = definition is proved over Q; an objective that is constant over front + archive (0/0 = NaN in the C++) and PolynomialMutator on a coordinate with lower = upper (NaN) are outside the rational theorems: compared with the float models, counted in the notes, reported to the lead",
         "NSGA3Indicator / MOEAD / RVEA are exercised with mu >= number of objectives only: sampleLatticeUniformly(keep_corners) writes all corner rows into an n-row matrix (heap overflow for n < #objectives, seen under ASan); reported to the lead, not part of the stream",
         "tournament-based optimisers (SMS-EMOA, NSGA-II/III, RVEA) need mu > tournament size 2 (library exception otherwise)",
         "HypervolumeIndicator without reference point inside the optimisers: when the split front has fewer than k non-extreme points the extreme points are discarded last (since /repo commit 1a2ef572; before, the request was answered with garbage resp. rejected)"]
@@ -761,6 +847,9 @@ def main():
     varx, err = cxx_build("c14_var", [os.path.join(ROOT, "harness", "c14_var.cpp")] + repo_src("src/Core/Random.cpp"))
     if varx is None:
         ck.oblige("variation-operator harness builds against /repo", False, err); ck.finish()
+    loopx, err = cxx_build("c14_loop", [os.path.join(ROOT, "harness", "c14_loop.cpp")] + repo_src("src/Core/Random.cpp"))
+    if loopx is None:
+        ck.oblige("updatePopulation harness builds against /repo", False, err); ck.finish()
     moo, err = cxx_build("c14_moo", [os.path.join(ROOT, "harness", "c14_moo.cpp")] + repo_src(*SRC_MOO))
     if moo is None:
         ck.oblige("optimizer harness builds against /repo", False, err); ck.finish()
@@ -778,6 +867,7 @@ def main():
     o_lines = [l for l in corpus if l.startswith("O ")]
     i_lines = [l for l in corpus if l.startswith("I ")]
     v_lines = [l for l in corpus if l[:2] in ("X ", "M ", "T ", "L ")]
+    u_lines = [l for l in corpus if l.startswith("U ")]
     if not ck.replay:
         s_lines += gen_S(ck.rng, big, 6000 if big else 900)
         p_lines += gen_P(ck.rng, 2000 if big else 300)
@@ -829,6 +919,14 @@ def main():
         ck.notes["variation_cases"] = len(v_lines)
         ck.notes["polynomial_mutation_degenerate_box_nan_cases"] = len(vdegen)
         ck.notes["polynomial_mutation_degenerate_box_nan_sample"] = vdegen[:1]
+
+    # ---- stream U: updatePopulation next to the loop model
+    if not ck.replay: u_lines += gen_U(ck.rng, big, 4000 if big else 800)
+    if u_lines:
+        um, ud = run_U(ck, u_lines, model, loopx, tmpd)
+        ck.oblige("correspondence C14Loop.gen_update / ss_update = updatePopulation of NSGA-II<H|E|C> / MOCMA / SMS-EMOA / steady-state MOCMA on %d calls" % len(u_lines),
+                  um == 0 and ud == 0, "%d monitor failures, %d disagreements" % (um, ud) if um or ud else "")
+        ck.notes["update_population_cases"] = len(u_lines)
 
     # ---- stream P
     pm = pd = 0
@@ -904,9 +1002,12 @@ def main():
         ck.oblige("re-initialised optimizer objects repeat the run of fresh objects on %d runs" % len(re_cases), rbad == 0)
         gens_total += sum(len(g) for (_, _, g, _) in [(0, 0, base[c][1], 0) for c in sel])
 
-    ck.cov["evaluations"] = len(s_lines) + len(f8_lines) + len(p_lines) + len(i_lines) + len(v_lines) + gens_total
+    ck.cov["evaluations"] = len(s_lines) + len(f8_lines) + len(p_lines) + len(i_lines) + len(v_lines) + len(u_lines) + gens_total
     ck.cov["distinct_nontrivial"] = len(set(l for l, o in zip(s_lines, outs) if "K=" in o and int(kv(o)["K"]) > 0)) + len(set(o_lines))
-    ck.cov["rule"] = ("S: integer populations (n<=14, d in 2..4, coordinates 0..6; random / single front / chain / duplicates), every mu for a third of the populations, "
+    ck.cov["rule"] = ("I: %d direct indicator calls (E/H/C/N; fronts with archive as the selection hands them over and arbitrary sets; K in {0,1,|front|,random}; duplicates, ties per objective, constant objective, dyadic coordinates).  "
+                      "V: %d operator calls (SBX with injected draws incl. 0, 1/2, 1-2^-53; polynomial mutation / tournament with mt19937 seeds; parents on the box boundary, equal / nearly equal parents, lower = upper, parents outside).  "
+                      "U: %d updatePopulation calls (NSGA-II x 3 indicators, MOCMA, SMS-EMOA, steady-state MOCMA).  " % (len(i_lines), len(v_lines), len(u_lines)) +
+                      "S: integer populations (n<=14, d in 2..4, coordinates 0..6; random / single front / chain / duplicates), every mu for a third of the populations, "
                       "4 indicators; non-trivial = the indicator had to name K>0 members of a split front.  P: integer points in/outside integer boxes.  "
                       "O: %d optimizer runs (9 configurations of the 7 algorithms x ZDT/DTLZ with 2-3 objectives x mu x seed x steps), every generation checked" % len(o_lines))
     ck.cov["samples"] = s_lines[:2] + o_lines[:2]
@@ -914,8 +1015,9 @@ def main():
     ck.notes.update({"selection_cases": len(s_lines), "selection_cases_with_split_front": ksplit, "indicator_mix": inds,
                      "penalizing_cases": len(p_lines), "optimizer_runs": len(o_lines), "optimizer_generations": gens_total,
                      "generations_per_algorithm": per_alg, "hv_decrease_noref": noref_dec})
-    ck.finish(explanation="selection theorems hold for any valid indicator; the implementation's indicator choices are read back and fed to the model; "
-                          "hypervolume monotonicity is proved for the model under the reference-point assumption and monitored on SMS-EMOA / steady-state MO-CMA")
+    ck.finish(explanation="selection theorems hold for any valid indicator; the coded indicators (epsilon, hypervolume 2-D, crowding distance, NSGA-III), the variation operators "
+                          "and updatePopulation are modelled as coded, proved, and run next to the C++ on every check (streams I, V, U, field mown of S); "
+                          "hypervolume monotonicity is proved for the coded 2-objective HypervolumeIndicator path under the reference-point assumption and monitored on SMS-EMOA / steady-state MO-CMA")
 
 if __name__ == "__main__":
     main()
